@@ -447,7 +447,8 @@ Obs(m) == [i \in 1..N |->
              [ok   |-> IF SummaryNA(i) THEN "na" ELSE B2S(OkGet(m, i)),
               stop |-> IF K(i) \in {"Tw", "S2E"} THEN "na" ELSE B2S(StopGet(m, i)),
               tags |-> IF HasAttr(K(i), "current_tags") THEN TagsGet(m, i) ELSE NoTags,
-              run  |-> IF RunNA(i) THEN 99 ELSE RunGet(m, i)]]
+              run  |-> IF RunNA(i) THEN 99 ELSE RunGet(m, i),
+              cnt  |-> IF K(i) \in TTLike THEN <<m[i].errs, m[i].fails, m[i].uxs>> ELSE <<>>]]
 NewLogs(m0, m1) == [i \in 1..N |-> SubSeq(m1[i].log, Len(m0[i].log) + 1, Len(m1[i].log))]
 
 -----------------------------------------------------------------------------
